@@ -242,14 +242,16 @@ class ConcRun(object):
                 self.model = pre
                 return False
             self.model.adopt(dump.natural(w))
-        if self.focus == 'multi':
-            # make sure at least two providers offer something
+        if True:
+            # make sure at least one provider (two for the multi focus)
+            # offers something: races for nothing prove nothing
             g = self.gen
+            need = 2 if self.focus == 'multi' else 1
             for _ in range(8):
                 m = self.model
                 have = set(p for (p, rc) in m.inventories
                            if g._room(m, p, rc, set()) > 0)
-                if len(have) >= 2:
+                if len(have) >= need:
                     break
                 ex = [u for u in g.existing_p(m) if u not in have]
                 if ex:
